@@ -103,7 +103,7 @@ func gen(t *rapid.T) Case {
 		c.Limit = rapid.SampledFrom([]string{"client", "server"}).Draw(t, "limitmode")
 		// small limits matter: the copy loops hand the limiter 16 KiB (and larger) writes, more than one burst
 		c.LimitKB = rapid.SampledFrom([]int{4, 8, 16, 64, 128, 512}).Draw(t, "limitkb")
-		maxLen = c.LimitKB * 1024
+		maxLen = 5 * c.LimitKB * 1024 // budget for ALL streams of the case (about 5 s), see below
 	}
 	n := rapid.IntRange(1, 5).Draw(t, "nconns")
 	if c.Limit != "" && n > 3 {
@@ -111,7 +111,15 @@ func gen(t *rapid.T) Case {
 	}
 	for i := 0; i < n; i++ {
 		l := fmt.Sprintf("c%d", i)
-		cs := ConnScript{Proxy: rapid.IntRange(0, c.NProxies-1).Draw(t, l+"/proxy"), Up: genStream(t, l+"/up", maxLen), Down: genStream(t, l+"/down", maxLen),
+		up := genStream(t, l+"/up", maxLen)
+		if c.Limit != "" {
+			maxLen -= up.Len
+		}
+		down := genStream(t, l+"/down", maxLen)
+		if c.Limit != "" {
+			maxLen -= down.Len
+		}
+		cs := ConnScript{Proxy: rapid.IntRange(0, c.NProxies-1).Draw(t, l+"/proxy"), Up: up, Down: down,
 			Mode: rapid.SampledFrom([]string{"duplex", "duplex", "backend-closes", "user-closes", "user-early", "backend-early"}).Draw(t, l+"/mode"),
 			Cut:  rapid.IntRange(0, 1000).Draw(t, l+"/cut")}
 		if c.Limit != "" {
